@@ -16,6 +16,7 @@ from .spec import Contract, SpecDB
 from .state import Explorer, Obligation, PathInfeasible, State, Undecided
 from .tys import mk_sym
 from .values import *  # noqa: F401,F403
+from .loops import PathDone
 
 
 def schema_of(tenv, t, depth=0):
@@ -33,6 +34,8 @@ def schema_of(tenv, t, depth=0):
         return {"k": "enum", "cls": t[1], "module": ci.path[:-3].replace("/", ".")}
     if k == "tuple":
         return {"k": "tuple", "items": [schema_of(tenv, x, depth) for x in t[1]]}
+    if k == "symobj":
+        return {"k": "opaque"}
     if k == "obj":
         ci = tenv.repo.cls(t[1])
         return {"k": "obj", "cls": t[1], "module": ci.path[:-3].replace("/", ".") if ci else None,
@@ -151,6 +154,7 @@ class FunctionVerifier:
         c = self.c
         ip = ContractInterp(self.repo, self.db, st, self.lib)
         ip.current_contract = c
+        ip.verified_finfo = self.finfo
         for k, h in self.extra_hooks.items():
             setattr(ip, k, h)
         fi = self.finfo
@@ -189,6 +193,8 @@ class FunctionVerifier:
         for nm, vars_, expr in self.db.axioms:
             pass  # axioms are instantiated on demand by spec functions (see contracts)
         old = st.snapshot()
+        ip.verify_env = env
+        ip.verify_old = old
         clock0 = len(st.clock_terms)
         if c.yield_inv or c.on_cancel or c.cancel_at_yield or c.shared:
             from .yieldpts import make_await_hook
@@ -201,6 +207,13 @@ class FunctionVerifier:
                 result = ip.run_body(fi, defining, [], {}, preset=dict(args))
             except PyRaise as pr:
                 raised = pr.exc
+            except PathDone:
+                if str(st.solver.check()) != "unsat":
+                    rep.reachable_paths += 1
+                    for ob in st.obligations:
+                        rep.add(ob)
+                rep.solver_time += st.solver_time
+                return None
         finally:
             rep.assumed |= st.assumed_used
             rep.notes |= set(st.notes)
@@ -225,9 +238,15 @@ class FunctionVerifier:
         if raised is None:
             rep.exits["return"] += 1
             env["result"] = result
+            for nm, (_t, w) in c.fresh.items():
+                try:
+                    env[nm] = ip.eval_spec_expr(w, env, old)
+                except (PyRaise, Unsupported):
+                    ip.check(f"witness:{nm}", z3.BoolVal(False), where=f"no value for {nm}: `{w}` is not defined on this path")
+                    env[nm] = mk_sym(st, ip.tenv, _t, st.fresh_name(nm))
             for rr in c.raises:
                 if rr.mode == "iff":
-                    w = ip.spec_bool(rr.when, env, old)
+                    w = self.pre_bool(ip, rr.when, env, old)
                     ip.check(f"raises-iff:{rr.exc}", z3.Not(w), where=f"returns normally although `{rr.when}`")
             for name, expr in c.ensures.items():
                 try:
@@ -245,14 +264,14 @@ class FunctionVerifier:
                 match = cands[0]
             else:
                 for rr in cands:
-                    if st.must(ip.spec_bool(rr.when, env, old)):
+                    if st.must(self.pre_bool(ip, rr.when, env, old)):
                         match = rr
                         break
             if match is None:
                 cands = [x for x in c.raises if exc_is_sub(raised.cls, x.exc)]
                 if cands:
                     # several clauses for this class: one of their conditions must hold
-                    ws = [ip.spec_bool(x.when, env, old) for x in cands]
+                    ws = [self.pre_bool(ip, x.when, env, old) for x in cands]
                     ip.check(f"raises-when:{raised.cls}", z3.Or(*ws), where="raised outside every declared condition")
                 else:
                     msg = ""
@@ -261,7 +280,7 @@ class FunctionVerifier:
                     ip.check(f"no-unexpected-exception:{raised.cls}", z3.BoolVal(False),
                              where=f"{raised.cls}({msg}) escapes; not declared in raises")
             else:
-                w = ip.spec_bool(match.when, env, old)
+                w = self.pre_bool(ip, match.when, env, old)
                 ip.check(f"raises-when:{match.exc}", w, where=f"raised although not `{match.when}`")
                 env2 = dict(env)
                 if match.bind:
@@ -275,6 +294,16 @@ class FunctionVerifier:
             rep.add(ob)
         rep.solver_time += st.solver_time
         return None
+
+    def pre_bool(self, ip, expr, env, old):
+        """a condition over the pre-state (raises.when)"""
+        st = ip.st
+        saved = (st.heap, st.ghost)
+        st.heap, st.ghost = dict(old[0]), dict(old[1])
+        try:
+            return ip.spec_bool(expr, env, old)
+        finally:
+            st.heap, st.ghost = saved
 
     # ------------------------------------------------------------------ effects / frame
     def check_effects(self, ip, effects, env, old, tag, c):
@@ -309,9 +338,10 @@ class FunctionVerifier:
         finally:
             st.heap, st.ghost = saved
         bad = []
+        ghost_refs = {v.ref for v in old_ghost.values() if isinstance(v, (VList, VDict))}
         for key, ov in old_heap.items():
             nv = st.heap.get(key)
-            if nv is ov or key in allowed:
+            if nv is ov or key in allowed or key[0] in ghost_refs:
                 continue
             if nv is None:
                 bad.append((key, None))
